@@ -110,7 +110,14 @@ func init() {
 		vhPkg + "Assume":    func(fr *frame, a []value) value { fr.i.assume(a[0]); return nil },
 		vhPkg + "Assert":    func(fr *frame, a []value) value { fr.i.assert(a[0], a[1].(string)); return nil },
 		vhPkg + "Cover":     func(fr *frame, a []value) value { fr.i.path.covers[a[0].(string)]++; return nil },
-		vhPkg + "Tag":       func(fr *frame, a []value) value { fr.i.path.tags[a[0].(string)] = a[1].(string); return nil },
+		vhPkg + "Tag": func(fr *frame, a []value) value {
+			if a[1].(string) == "" {
+				delete(fr.i.path.tags, a[0].(string))
+			} else {
+				fr.i.path.tags[a[0].(string)] = a[1].(string)
+			}
+			return nil
+		},
 		vhPkg + "Note":      func(fr *frame, a []value) value { fr.i.path.notes = append(fr.i.path.notes, a[0].(string)); return nil },
 		vhPkg + "Symbolic":  func(fr *frame, a []value) value { return true },
 		vhPkg + "And":       extVhAnd,
